@@ -767,8 +767,14 @@ pub fn code_block(input: ParseString) -> ParseResult<SectionElement> {
       match parse_grammar(&ebnf_text) {
         Ok(grammar_tree) => {return Ok((input, SectionElement::Grammar(grammar_tree)));},
         Err(err) => {
-          println!("Error parsing EBNF grammar: {:?}", err);
-          todo!();
+          return Err(nom::Err::Error(ParseError {
+              cause_range: r,
+              remaining_input: input,
+              error_detail: ParseErrorDetail {
+                  message: "Error parsing EBNF grammar in code block",
+                  annotation_rngs: Vec::new(),
+              },
+          }));
         }
       }
     }
